@@ -301,7 +301,18 @@ func (ex *Exec) applyContract(s *State, instr ssa.Instruction, f *ssa.Function, 
 	env2 := &Env{ex: ex, s: s, vars: vars, oldHeap: snap, pkg: env.pkg, where: where, freshLo: lo, freshHi: hi}
 	ex.bindResults(env2, f, results)
 	ex.bindLets(env2, con)
+	calleeLets := map[string]bool{}
+	for _, g := range con.Ghost {
+		if g.Kind == "let" {
+			calleeLets[g.Name] = true
+		}
+	}
 	for _, e := range con.Ensures {
+		if len(calleeLets) > 0 && mentionsAny(e.Expr, calleeLets) {
+			// clause about a value internal to the callee (captured at one
+			// of its call sites): not usable by callers
+			continue
+		}
 		s.assume(ex.evalBool(env2, e.Expr))
 	}
 	if con.Trusted {
